@@ -32,7 +32,7 @@ def ndec(cvk, pan, exp, svc):
 
 
 def generate(rng, tier, seed):
-    for e in corpus("C09") + corpus("C09", "rare2.jsonl"):
+    for e in corpus("C09") + corpus("C09", "rare2.jsonl") + corpus("C09", "patterns.jsonl"):
         c = Case(f"corpus:{e['decimal_nibbles']}-decimal-nibbles", {})
         one(c, bytes.fromhex(e["cvk"]), e["pan"], e["expiry"], e["svc"])
         yield c
